@@ -95,6 +95,11 @@ class ApplicationFileScanner:
                 did_error_scanning_files = True
                 break
 
+        # A path that is in error means that nothing is processed, regardless of where
+        # in the argument list that path occurs.
+        if did_error_scanning_files:
+            files_to_parse.clear()
+
         sorted_files_to_parse = sorted(files_to_parse)
         LOGGER.info("Number of files found: %d", len(sorted_files_to_parse))
         did_only_list_files = ApplicationFileScanner.__handle_main_list_files(
